@@ -121,6 +121,8 @@ pub enum Op {
     /// mark an object: its destructor releases its stored handles through
     /// Rc::into_raw + Rc::decrement_strong_count instead of dropping them
     RawRelease(ObjId),
+    /// arm the value of the object: its next `Clone::clone` (inside make_mut) panics
+    CloneBomb(ObjId),
     /// inside a destructor: move own stored handle k out to a program slot (it escapes the teardown)
     EscapeOwn(usize),
     /// clone a program-held handle whose target is already destroyed, then print AFTER-CLONE (C16)
@@ -205,6 +207,7 @@ impl fmt::Display for Op {
             Op::DowngradeOwn(k) => write!(f, "downgradeown:{}", k),
             Op::Shallow(o) => write!(f, "shallow:{}", o),
             Op::RawRelease(o) => write!(f, "rawrelease:{}", o),
+            Op::CloneBomb(o) => write!(f, "clonebomb:{}", o),
             Op::EscapeOwn(k) => write!(f, "escapeown:{}", k),
             Op::CloneLate(s) => write!(f, "clonelate:{}", fmt_slot(*s)),
             Op::Nop => write!(f, "nop"),
@@ -278,6 +281,7 @@ pub fn parse_op(s: &str) -> Option<Op> {
         "downgradeown" => Op::DowngradeOwn(u(1)?),
         "shallow" => Op::Shallow(o(1)?),
         "rawrelease" => Op::RawRelease(o(1)?),
+        "clonebomb" => Op::CloneBomb(o(1)?),
         "escapeown" => Op::EscapeOwn(u(1)?),
         "clonelate" => Op::CloneLate(u(1)?),
         "nop" => Op::Nop,
